@@ -127,4 +127,17 @@ CHECKS = {
            "Not decided: documents not produced by the writer (C09)."),
   "design_ref": "DESIGN.md §5 C07", "note": _NOTE,
   "technique": "static analysis: writer/reader agreement (CODEC) by evaluating both transformation ASTs over finite abstractions of every carried dimension; XML element stand-ins; truth-table equivalence of constraints"},
+ "C01": {
+  "text": ("CODEC closure for UVL by composing UVLWriter.transform and UVLReader.transform from source (the dependency's "
+           "generated recogniser, part of the environment like json, turns the text the writer's source produces into the "
+           "parse tree the reader's source consumes): per class of every dimension UVL carries - relation order types "
+           "over the well-formed cardinality domain incl. '*', several relations per parent, nesting, the four feature "
+           "types, feature cardinalities, abstract flag, attribute value kinds incl. lists and nested maps, name shapes "
+           "(space, punctuation, non-ASCII, keywords, leading digit/underscore, operator words), every logical, "
+           "comparison, arithmetic and two-argument aggregate operator at every position incl. nestings that need "
+           "parentheses - the model read back equals the one written (constraints up to logical equivalence by truth "
+           "table / identical trees); further cycles are fixpoints with byte-identical text; returned = written; UTF-8 on "
+           "both sides. Not decided: interactions between dimensions beyond the combined model."),
+  "design_ref": "DESIGN.md §5 C01", "note": _NOTE + " The generated UVL lexer/parser of the uvl package is trusted as the grammar.",
+  "technique": "static analysis: writer/reader agreement (CODEC) by evaluating both transformation ASTs over finite abstractions of every carried dimension; generated recogniser used as the grammar table between them"},
 }
